@@ -83,13 +83,16 @@ pub enum LStep {
     NodeAddr { id: u64, addr_len: usize },
     /// what do_log_compaction does to the store: snapshot file + catalogue + pointer log
     Compact { back: u64 },
-    /// what finalize_snapshot_installation does (pointer at `ahead` past the end, or inside)
-    InstallPointer { ahead: u64 },
+    /// what finalize_snapshot_installation does to the log: pointer at last+rel (rel < 0: the
+    /// snapshot covers a prefix of the log, delete_through = Some; rel >= 0: delete_through = None)
+    InstallPointer { rel: i64 },
     SaveApplied { back: u64 },
     Advance { ms: u64 },
     Reopen,
     /// kill -9 and restart
     Crash,
+    /// kill -9 at once: no settling, no observation since the previous step's acknowledgement
+    CrashNow,
 }
 
 #[derive(Serialize, Deserialize, Clone, Debug)]
@@ -232,9 +235,31 @@ pub struct LModel {
     pub applied: u64,
     /// entry (index) whose presence is undetermined because its operation failed under faults
     pub uncertain_from: Option<u64>,
+    /// every acknowledged version of the register (hard state, membership, addresses)
+    pub reg_history: Vec<Reg>,
+    /// index into reg_history of the newest version known to have completed on disk
+    pub reg_durable: Option<usize>,
+    /// next log index at the last point where everything acknowledged was known durable
+    pub next_durable: u64,
+    /// set by CrashNow: the register may legitimately be any version in reg_history[reg_durable..]
+    pub reg_window: Option<Option<usize>>,
+}
+
+#[derive(Clone, Debug, Default, PartialEq)]
+pub struct Reg {
+    pub hs: Option<(u64, u64)>,
+    pub members: Option<(Vec<u64>, Vec<u64>)>,
+    pub addrs: BTreeMap<u64, String>,
 }
 
 impl LModel {
+    pub fn reg(&self) -> Reg {
+        Reg { hs: self.hs, members: self.members.clone(), addrs: self.addrs.clone() }
+    }
+    pub fn push_reg(&mut self) {
+        let r = self.reg();
+        self.reg_history.push(r);
+    }
     pub fn last(&self) -> Option<(u64, &MEntry)> {
         self.entries.iter().next_back().map(|(k, v)| (*k, v))
     }
@@ -258,6 +283,8 @@ pub struct LExec {
     pub failed_ops: u64,
     pub reopens: u64,
     pub next_snapshot_id: u64,
+    pub findings: Vec<Violation>,
+    pub log_checks_off: bool,
 }
 
 fn clause(id: &str, c: &str) -> String {
@@ -282,6 +309,8 @@ impl LExec {
             failed_ops: 0,
             reopens: 0,
             next_snapshot_id: 1,
+            findings: vec![],
+            log_checks_off: false,
         }
     }
 
@@ -340,7 +369,7 @@ impl LExec {
                         self.m.started = true;
                     }
                     Some(Err(err)) => {
-                        if self.cfg.faulty() {
+                        if self.cfg.faulty() || self.log_checks_off {
                             self.failed_ops += 1;
                             self.note_uncertain(e.index);
                             sim::event(&format!("fail append {} {}", e.index, err));
@@ -379,7 +408,7 @@ impl LExec {
                         }
                     }
                     Some(Err(err)) => {
-                        if self.cfg.faulty() {
+                        if self.cfg.faulty() || self.log_checks_off {
                             self.failed_ops += 1;
                             self.note_uncertain(first);
                         } else {
@@ -439,6 +468,7 @@ impl LExec {
                     Some(Ok(())) => {
                         sim::event(&format!("ack hard_state {} {}", term, vote));
                         self.m.hs = Some((term, *vote));
+                        self.m.push_reg();
                     }
                     Some(Err(err)) => vfail!(&clause(id, "hard_state_rejected"), "save_hard_state failed: {}", err),
                 }
@@ -461,6 +491,7 @@ impl LExec {
                     Ok(Ok(_)) => {
                         self.m.members = Some((members.clone(), after.clone()));
                         self.m.addrs = addrs.iter().map(|(k, v)| (*k, v.as_ref().clone())).collect();
+                        self.m.push_reg();
                         sim::event("ack member");
                     }
                     other => vfail!(&clause(id, "member_rejected"), "SaveMember failed: {:?}", other.map(|r| r.map(|_| ()).map_err(|e| e.to_string()))),
@@ -473,6 +504,7 @@ impl LExec {
                 match r {
                     Ok(Ok(_)) => {
                         self.m.addrs.insert(*nid, addr);
+                        self.m.push_reg();
                         sim::event("ack node_addr");
                     }
                     other => vfail!(&clause(id, "addr_rejected"), "AddNodeAddr failed: {:?}", other.map(|r| r.map(|_| ()).map_err(|e| e.to_string()))),
@@ -490,8 +522,8 @@ impl LExec {
             LStep::Compact { back } => {
                 self.compact(*back).await?;
             }
-            LStep::InstallPointer { ahead } => {
-                self.install_pointer(*ahead).await?;
+            LStep::InstallPointer { rel } => {
+                self.install_pointer(*rel).await?;
             }
             LStep::Advance { ms } => {
                 advance(*ms).await;
@@ -514,8 +546,76 @@ impl LExec {
                 self.open();
                 self.after_reopen_model_fixups();
             }
+            LStep::CrashNow => {
+                let h = self.h.take().unwrap();
+                kill(h, NODE);
+                self.reopens += 1;
+                self.probe("crash_now");
+                // log entries acknowledged since the last durable point may or may not have completed
+                if self.m.next > self.m.next_durable {
+                    let nd = self.m.next_durable;
+                    self.note_uncertain(nd);
+                }
+                self.m.reg_window = Some(self.m.reg_durable);
+                self.open();
+                self.after_reopen_model_fixups();
+                if self.id == "C05" {
+                    // C05 is about the register; what a kill may do to the log is C04's subject
+                    self.log_checks_off = true;
+                    if let Some(Ok(st)) = within(60_000, self.store().get_initial_state()).await {
+                        if self.m.started {
+                            self.m.next = st.last_log_index + 1;
+                        }
+                    }
+                    self.m.uncertain_from = None;
+                } else {
+                    self.resync_log_after_kill().await?;
+                }
+            }
         }
         Ok(())
+    }
+
+    /// After a kill without settling the tail acknowledged since the last durable point may be
+    /// gone. Whatever is there must be a prefix of what was acknowledged and must include everything
+    /// known durable; the model is then cut to what survived.
+    async fn resync_log_after_kill(&mut self) -> VResult<()> {
+        let id = self.id;
+        if !self.m.started {
+            return Ok(());
+        }
+        let hi = self.m.next + 5;
+        let got = match within(120_000, self.store().get_log_entries(0, hi)).await {
+            Some(Ok(v)) => v,
+            other => vfail!(&clause(id, "read_error"), "get_log_entries after kill failed: {:?}", other.map(|r| r.map(|v| v.len()).map_err(|e| e.to_string()))),
+        };
+        self.compare_entries(&got, 0, hi, "after kill")?;
+        let last = got.last().map(|e| e.index);
+        let next = match last {
+            Some(l) => l + 1,
+            None => self.m.low.max(self.cfg.first_index),
+        };
+        vensure!(next >= self.m.next_durable, &clause(id, "durable_lost"), "after kill the log ends at {} but entries up to {} had completed on disk before the kill", next.saturating_sub(1), self.m.next_durable.saturating_sub(1));
+        let cut: Vec<u64> = self.m.entries.range(next..).map(|(i, _)| *i).collect();
+        for i in cut {
+            self.m.entries.remove(&i);
+        }
+        if next < self.m.next {
+            self.m.next = next;
+        }
+        self.m.uncertain_from = None;
+        Ok(())
+    }
+
+    /// everything acknowledged so far has been observed through the index manager (its mailbox is
+    /// blocked while a catalogue write is in flight) and no disk mutation is pending: durable.
+    pub fn mark_durable(&mut self) {
+        if tokio::fs::pending_ops() == 0 {
+            self.m.reg_durable = self.m.reg_history.len().checked_sub(1);
+            if self.m.uncertain_from.is_none() {
+                self.m.next_durable = self.m.next;
+            }
+        }
     }
 
     fn note_uncertain(&mut self, index: u64) {
@@ -618,31 +718,44 @@ impl LExec {
         }
     }
 
-    /// what `finalize_snapshot_installation` does to the log: split-off + pointer
-    async fn install_pointer(&mut self, ahead: u64) -> VResult<()> {
+    /// what `finalize_snapshot_installation` does to the log, with async-raft's choice of
+    /// `delete_through` (Some(index) iff the log extends beyond the snapshot)
+    async fn install_pointer(&mut self, rel: i64) -> VResult<()> {
         if !self.m.started {
             return Ok(());
         }
         let last = self.m.next - 1;
-        let idx = last + ahead;
-        if idx < self.m.low {
-            return Ok(());
-        }
-        let term = self.m.term;
+        let idx = (last as i64 + rel).max(self.m.low as i64 + 1).max(1) as u64;
+        let delete_through = if last > idx { Some(idx) } else { None };
+        let term = match self.m.entries.get(&idx) {
+            Some(e) => e.term,
+            None => self.m.term,
+        };
         let h = self.h.as_ref().unwrap();
         let sid = self.next_snapshot_id + 1000;
         self.next_snapshot_id += 1;
-        // delete_through = everything we have (what async-raft passes when the snapshot is ahead)
-        h.lm.send(RaftLogManagerRequest::SplitOff(idx + 1)).await.ok();
+        let split_off_index = if let Some(v) = delete_through { v + 1 } else { u64::MAX }; // mirrors FileStore::finalize_snapshot_installation
+        h.lm.send(RaftLogManagerRequest::SplitOff(split_off_index)).await.ok();
         let entry: Entry<ClientRequest> = Entry::new_snapshot_pointer(idx, term, sid.to_string(), MembershipConfig { members: [1u64].iter().cloned().collect(), members_after_consensus: None });
         let record = StoreUtils::entry_to_record(&entry).unwrap();
         let pj = payload_json(&entry.payload);
         h.lm.send(RaftLogManagerRequest::InstallSnapshotPointerLog(record)).await.ok();
-        sim::event(&format!("ack install_pointer idx={}", idx));
-        self.m.staged_pointer = None;
+        sim::event(&format!("ack install_pointer idx={} delete_through={:?}", idx, delete_through));
+        // an installed snapshot replaces the log up to and including idx; with delete_through = None
+        // it replaces all of it (async-raft continues at idx + 1)
+        if delete_through.is_none() {
+            let all: Vec<u64> = self.m.entries.keys().cloned().collect();
+            for i in all {
+                if let Some(e) = self.m.entries.remove(&i) {
+                    self.m.removed.insert(e.payload);
+                }
+            }
+            self.m.next = idx + 1;
+            self.probe("install_pointer_ahead");
+        } else {
+            self.probe("install_pointer_inside");
+        }
         self.apply_pointer_to_model(idx, term, pj);
-        // entries above idx (none when ahead>=0) stay
-        self.probe("install_pointer");
         settle().await;
         Ok(())
     }
@@ -652,6 +765,9 @@ impl LExec {
 
     pub async fn check_log(&mut self, when: &str) -> VResult<()> {
         let id = self.id;
+        if self.log_checks_off {
+            return Ok(());
+        }
         let hi = self.m.next + 5;
         let got = match within(120_000, self.store().get_log_entries(0, hi)).await {
             None => vfail!(&clause(id, "op_hang"), "get_log_entries did not answer ({})", when),
@@ -730,11 +846,62 @@ impl LExec {
             Some(Ok(s)) => s,
             other => vfail!(&clause(id, "state_error"), "get_initial_state failed {}: {:?}", when, other.map(|r| r.map(|_| ()).map_err(|e| e.to_string()))),
         };
-        if self.m.uncertain_from.is_none() {
+        if self.m.uncertain_from.is_none() && !self.log_checks_off {
             if let Some((li, le)) = self.m.last() {
                 vensure!(st.last_log_index == li, &clause(id, "last_index"), "{}: last_log_index {} but the last acknowledged entry is {}", when, st.last_log_index, li);
                 if after_reopen {
                     vensure!(st.last_log_term == le.term, &clause(id, "last_term"), "{}: last_log_term {} but the last entry {} has term {}", when, st.last_log_term, li, le.term);
+                }
+            }
+        }
+        if let Some(durable) = self.m.reg_window.take() {
+            // after a kill without settling: the register must be one of the versions acknowledged
+            // since the last version known durable (or that one) - never older, never a mix
+            let mut obs_addrs = BTreeMap::new();
+            let ids: HashSet<u64> = self.m.reg_history.iter().flat_map(|r| r.addrs.keys().cloned()).collect();
+            for nid in ids {
+                if let Ok(a) = self.store().get_target_addr(nid).await {
+                    obs_addrs.insert(nid, a.as_ref().clone());
+                }
+            }
+            let obs_hs = (st.hard_state.current_term, st.hard_state.voted_for.unwrap_or(0));
+            let mut obs_members: Vec<u64> = st.membership.members.iter().cloned().collect();
+            obs_members.sort();
+            let mut obs_after: Vec<u64> = st.membership.members_after_consensus.clone().unwrap_or_default().into_iter().collect();
+            obs_after.sort();
+            let matches = |r: &Reg| -> bool {
+                let hs = r.hs.unwrap_or((0, 0));
+                let (mut m, mut a) = r.members.clone().unwrap_or((vec![], vec![]));
+                m.sort();
+                a.sort();
+                hs == obs_hs && m == obs_members && a == obs_after && r.addrs == obs_addrs
+            };
+            let n = self.m.reg_history.len();
+            let lo = durable.map(|d| d as i64).unwrap_or(-1);
+            let mut found: Option<i64> = None;
+            let mut j = n as i64 - 1;
+            while j >= lo {
+                let ok = if j < 0 { matches(&Reg::default()) } else { matches(&self.m.reg_history[j as usize]) };
+                if ok {
+                    found = Some(j);
+                    break;
+                }
+                j -= 1;
+            }
+            match found {
+                None => vfail!(&clause(id, "register_regress"), "{}: after a kill the register (term,vote)={:?} members={:?}/{:?} addrs={:?} equals no version acknowledged since the last durable one (versions {}..{} of {:?})", when, obs_hs, obs_members, obs_after, obs_addrs, lo, n as i64 - 1, self.m.reg_history),
+                Some(j) => {
+                    if j < n as i64 - 1 {
+                        self.probe("ack_before_durable_seen");
+                        let lost = &self.m.reg_history[n - 1];
+                        self.findings.push(Violation::new(&clause(id, "ack_before_durable"), format!("{}: a save was acknowledged ((term,vote)={:?}, members={:?}) but a kill right after the acknowledgement lost it: the restarted node reports (term,vote)={:?} members={:?}", when, lost.hs, lost.members, obs_hs, obs_members)));
+                    }
+                    let r = if j < 0 { Reg::default() } else { self.m.reg_history[j as usize].clone() };
+                    self.m.hs = r.hs;
+                    self.m.members = r.members.clone();
+                    self.m.addrs = r.addrs.clone();
+                    self.m.reg_history.truncate((j + 1) as usize);
+                    self.m.reg_durable = if j < 0 { None } else { Some(j as usize) };
                 }
             }
         }
@@ -796,12 +963,20 @@ pub async fn exec_lscript(id: &'static str, script: Value) -> ExecResult {
     for (i, st) in steps.iter().enumerate() {
         sim::event(&format!("step {} {}", i, serde_json::to_string(st).unwrap_or_default().chars().take(100).collect::<String>()));
         let panics_before = panics_so_far();
+        // no observation between an acknowledgement and the kill that follows it
+        let crash_next = matches!(steps.get(i + 1), Some(LStep::CrashNow))
+            && matches!(st, LStep::HardState { .. } | LStep::Member { .. } | LStep::NodeAddr { .. } | LStep::Append { .. } | LStep::Replicate { .. });
         let r = async {
             x.step(st).await?;
-            let reopened = matches!(st, LStep::Reopen | LStep::Crash);
+            if crash_next {
+                // no observation between the acknowledgement and the kill
+                return Ok(());
+            }
+            let reopened = matches!(st, LStep::Reopen | LStep::Crash | LStep::CrashNow);
             let when = format!("after step {} ({})", i, step_name(st));
             x.check_log(&when).await?;
             x.check_state(&when, reopened).await?;
+            x.mark_durable();
             Ok::<(), Violation>(())
         }
         .await;
@@ -819,7 +994,7 @@ pub async fn exec_lscript(id: &'static str, script: Value) -> ExecResult {
         digest: x.model_digest(),
         nontrivial,
         info: json!({"entries": x.m.entries.len(), "low": x.m.low, "reopens": x.reopens, "failed_ops": x.failed_ops}),
-        findings: vec![],
+        findings: x.findings.clone(),
     };
     // leave no live handles behind
     if let Some(h) = x.h.take() {
@@ -842,6 +1017,7 @@ pub fn step_name(s: &LStep) -> &'static str {
         LStep::Advance { .. } => "advance",
         LStep::Reopen => "reopen",
         LStep::Crash => "crash",
+        LStep::CrashNow => "crash_now",
     }
 }
 
